@@ -169,16 +169,22 @@ func zzC09Caps(paused bool, n int) {
 // the sync plans exactly min(maxParallel, (1+floor(t/interval)) * ceil(pct*N/100), N) creations.
 func ZZ_C09_percentTargets() {
 	n := 10
-	switch nondet.String("nodes", "4", "10", "40") {
+	switch nondet.String("nodes", "4", "10", "40", "100") {
 	case "4":
 		n = 4
 	case "40":
 		n = 40
+	case "100":
+		n = 100
 	}
 	pct := 10
-	switch nondet.String("increase", "1%", "10%", "25%", "34%", "100%") {
+	switch nondet.String("increase", "1%", "7%", "10%", "14%", "25%", "34%", "100%") {
 	case "1%":
 		pct = 1
+	case "7%": // 7% of 100 is exactly 7: no rounding up of an exact share
+		pct = 7
+	case "14%":
+		pct = 14
 	case "25%":
 		pct = 25
 	case "34%":
